@@ -202,6 +202,18 @@ func TestPropDecode(t *testing.T) {
 			if m, ok := declareFewerFields(data, rapid.IntRange(0, 11).Draw(t, "k")); ok {
 				mut, name = m, "profile-declares-fewer-fields"
 			}
+		} else if baseKind(kind) == "commit" && bytes.Contains(data, []byte("\ntime ")) && rapid.IntRange(0, 3).Draw(t, "timefield") == 0 {
+			// the 16 bytes of the time field ("<10-digit seconds> <+hhmm>") replaced by text of the
+			// same width whose separator, sign or digits sit elsewhere
+			i := bytes.Index(data, []byte("\ntime ")) + 6
+			if i+16 <= len(data) {
+				txt := rapid.SampledFrom([]string{
+					"12345678901234 +", "160000000000 +00", "1600000000+07000", "                ", "1600000000 +070 ",
+					" 1600000000+0700", "1600000000  0700", "-600000000 -0700", "16000000000+0700", "1600000000 +07:0",
+					"160000000 +07000", "\x001600000000 +070", "1600000000 \xff0700", "9999999999 +9999", "0000000000 -0000",
+				}).Draw(t, "timetext")
+				mut, name = append(append(append([]byte{}, data[:i]...), txt[:16]...), data[i+16:]...), "commit-time-field"
+			}
 		} else if kind == "pktline" && len(data) >= 4 && rapid.IntRange(0, 3).Draw(t, "lenprefix") == 0 {
 			// the 4-character length prefix of the first line replaced by text a lenient number
 			// parser might accept: signs, blanks, prefixes, upper case
